@@ -538,6 +538,15 @@ class Evaluator(object):
             t = self.tys[ty]
             if k == "d":
                 v = self.read_path(st, st.objs[obj], path)
+                if isinstance(v, OpaqueV) and not str(v.token).startswith("loop-poison"):
+                    # a reference we know nothing about (captured by a closure, field of an opaque value): give it an opaque target
+                    # once, and remember it so that later dereferences see the same object
+                    tgt = st.alloc(OpaqueV(t.get("to"), "%s.*" % v.token), "opq")
+                    v = Ref(tgt, (), None, bool(t.get("mut")))
+                    try:
+                        st.objs[obj] = self.write_path(st.objs[obj], path, v)
+                    except Unsupported:
+                        pass
                 if not isinstance(v, Ref):
                     raise Unsupported("deref of %r in %s" % (v, fr.body["key"]))
                 obj, path, win = v.obj, v.path, v.win
